@@ -4,6 +4,5 @@ CONSTANTS
   Names = {"a", "b"}
   MaxCost = 2
   Directed = FALSE
-  CompleteUpTo = 2
-INVARIANTS Dbg RT GenOK
+INVARIANTS Dbg RT GenSound
 CHECK_DEADLOCK FALSE
